@@ -160,6 +160,11 @@ func c06Scenario(c *choice.Ctx, rep *report.R, prop string, nCalls, depth int) {
 			cl := cl
 			if !cl.started {
 				menu = append(menu, event{name: fmt.Sprintf("start%d", cl.idx), do: func() { cl.start(tr, timeout) }})
+				if cl.idx > 0 {
+					// the caller's deadline has already passed when it calls (a request that spent its time elsewhere): whatever the
+					// transport finds - an idle connection, a dial in progress - the exchange returns at once
+					menu = append(menu, event{name: fmt.Sprintf("start%d-with-expired-deadline", cl.idx), fault: true, do: func() { cl.start(tr, 0) }})
+				}
 				break
 			}
 		}
@@ -251,7 +256,7 @@ func c06Scenario(c *choice.Ctx, rep *report.R, prop string, nCalls, depth int) {
 		ev.do()
 		wait()
 		check()
-		if strings.HasPrefix(ev.name, "advance") && !paused() {
+		if (strings.HasPrefix(ev.name, "advance") || strings.HasSuffix(ev.name, "-with-expired-deadline") || strings.HasPrefix(ev.name, "resume(")) && !paused() {
 			for _, cl := range calls {
 				if cl.inflight() && !time.Now().Before(cl.deadline) {
 					fail("missed-deadline", fmt.Sprintf("exchange %d still running at its deadline", cl.idx))
